@@ -298,9 +298,15 @@ class AssignBase(StatementBase):
         get_deps = self.get_dependency_mapper()
 
         def get_vars(expr):
-            return frozenset(dep.name for dep in get_deps(self.rhs))
+            return frozenset(dep.name for dep in get_deps(expr))
 
-        result = get_vars(self.rhs) | get_vars(self.lhs)
+        result = get_vars(self.rhs)
+
+        # The variables used in the subscript of the left-hand side are read
+        # (the subscripted variable itself is written).
+        from pymbolic.primitives import Subscript
+        if isinstance(self.lhs, Subscript):
+            result = result | get_vars(self.lhs.index)
 
         return result
 
